@@ -451,6 +451,16 @@ func getTypeConverter(typ reflect.Type) (TypeConverter, error) {
 	return converter, nil
 }
 
+// narrowInt converts v to the Go integer type T. It returns an error if T
+// cannot represent v, rather than the wrapped value a plain conversion gives.
+func narrowInt[T int | int8 | int16 | int32 | uint | uint8 | uint16 | uint32 | uint64](v int64) (interface{}, error) {
+	r := T(v)
+	if int64(r) != v || (r < 0) != (v < 0) {
+		return nil, errz.TypeErrorf("type error: %d is out of range for %T", v, r)
+	}
+	return r, nil
+}
+
 // BoolConverter converts between bool and *Bool.
 type BoolConverter struct{}
 
@@ -474,7 +484,7 @@ func (c *ByteConverter) To(obj Object) (interface{}, error) {
 	case *Byte:
 		return obj.value, nil
 	case *Int:
-		return byte(obj.value), nil
+		return narrowInt[byte](obj.value)
 	case *Float:
 		return byte(obj.value), nil
 	default:
@@ -516,7 +526,7 @@ func (c *IntConverter) To(obj Object) (interface{}, error) {
 	case *Byte:
 		return int(obj.value), nil
 	case *Int:
-		return int(obj.value), nil
+		return narrowInt[int](obj.value)
 	case *Float:
 		return int(obj.value), nil
 	default:
@@ -534,9 +544,9 @@ type Int8Converter struct{}
 func (c *Int8Converter) To(obj Object) (interface{}, error) {
 	switch obj := obj.(type) {
 	case *Byte:
-		return int8(obj.value), nil
+		return narrowInt[int8](int64(obj.value))
 	case *Int:
-		return int8(obj.value), nil
+		return narrowInt[int8](obj.value)
 	case *Float:
 		return int8(obj.value), nil
 	default:
@@ -556,7 +566,7 @@ func (c *Int16Converter) To(obj Object) (interface{}, error) {
 	case *Byte:
 		return int16(obj.value), nil
 	case *Int:
-		return int16(obj.value), nil
+		return narrowInt[int16](obj.value)
 	case *Float:
 		return int16(obj.value), nil
 	default:
@@ -576,7 +586,7 @@ func (c *Int32Converter) To(obj Object) (interface{}, error) {
 	case *Byte:
 		return int32(obj.value), nil
 	case *Int:
-		return int32(obj.value), nil
+		return narrowInt[int32](obj.value)
 	case *Float:
 		return int32(obj.value), nil
 	default:
@@ -616,7 +626,7 @@ func (c *UintConverter) To(obj Object) (interface{}, error) {
 	case *Byte:
 		return uint(obj.value), nil
 	case *Int:
-		return uint(obj.value), nil
+		return narrowInt[uint](obj.value)
 	case *Float:
 		return uint(obj.value), nil
 	default:
@@ -640,7 +650,7 @@ func (c *Uint8Converter) To(obj Object) (interface{}, error) {
 	case *Byte:
 		return uint8(obj.value), nil
 	case *Int:
-		return uint8(obj.value), nil
+		return narrowInt[uint8](obj.value)
 	case *Float:
 		return uint8(obj.value), nil
 	default:
@@ -660,7 +670,7 @@ func (c *Uint16Converter) To(obj Object) (interface{}, error) {
 	case *Byte:
 		return uint16(obj.value), nil
 	case *Int:
-		return uint16(obj.value), nil
+		return narrowInt[uint16](obj.value)
 	case *Float:
 		return uint16(obj.value), nil
 	default:
@@ -680,7 +690,7 @@ func (c *Uint32Converter) To(obj Object) (interface{}, error) {
 	case *Byte:
 		return uint32(obj.value), nil
 	case *Int:
-		return uint32(obj.value), nil
+		return narrowInt[uint32](obj.value)
 	case *Float:
 		return uint32(obj.value), nil
 	default:
@@ -700,7 +710,7 @@ func (c *Uint64Converter) To(obj Object) (interface{}, error) {
 	case *Byte:
 		return uint64(obj.value), nil
 	case *Int:
-		return uint64(obj.value), nil
+		return narrowInt[uint64](obj.value)
 	case *Float:
 		return uint64(obj.value), nil
 	default:
